@@ -1224,7 +1224,9 @@ func validCloseCode(code int) bool {
 		return true //       | Internal Server | hybi@ietf.org | RFC 6455  |
 		//     |            | Error           |               |           |
 	case 1015:
-		return true //  | TLS handshake   | hybi@ietf.org | RFC 6455
+		// like 1005 and 1006 it is reserved for local use and
+		// must not be set in a Close frame by an endpoint.
+		return false //  | TLS handshake   | hybi@ietf.org | RFC 6455
 	default:
 	}
 	// IANA registration policy and should be granted in the range 3000-3999.
